@@ -226,7 +226,9 @@ class Gen:
         sel = []
         if not src_bp and r.random() < 0.35:
             for i in range(r.choice([1, 1, 2, 3])):
-                ty = ["named", "idT"] if r.random() < 0.3 else ["range", 0, self.K()]
+                c = r.random()
+                # (an upper bound equal to the default limit of `int` is still a bound of its own)
+                ty = ["named", "idT"] if c < 0.3 else ["range", r.choice([0, 1]), 32767] if c < 0.4 else ["range", 0, self.K()]
                 sel.append(["i%d" % i, ty])
             labels.append(["select", sel])
         rest = []
